@@ -429,6 +429,7 @@ func (e *expression) Value(ctx *hcl.EvalContext) (cty.Value, hcl.Diagnostics) {
         attrs := map[string]cty.Value{}
         attrRanges := map[string]hcl.Range{}
         known := true
+        var marks []cty.ValueMarks
         for _, jsonAttr := range v.Attrs {
             // In this one context we allow keys to contain interpolation
             // expressions too, assuming we're evaluating in interpolation
@@ -468,6 +469,10 @@ func (e *expression) Value(ctx *hcl.EvalContext) (cty.Value, hcl.Diagnostics) {
                 })
                 continue
             }
+            // a marked key (e.g. a sensitive value) marks the whole object, as in
+            // the native syntax
+            name, nameMarks := name.Unmark()
+            marks = append(marks, nameMarks)
             if !name.IsKnown() {
                 // This is a bit of a weird case, since our usual rules require
                 // us to tolerate unknowns and just represent the result as
@@ -498,9 +503,9 @@ func (e *expression) Value(ctx *hcl.EvalContext) (cty.Value, hcl.Diagnostics) {
         if !known {
             // We encountered an unknown key somewhere along the way, so
             // we can't know what our type will eventually be.
-            return cty.DynamicVal, diags
+            return cty.DynamicVal.WithMarks(marks...), diags
         }
-        return cty.ObjectVal(attrs), diags
+        return cty.ObjectVal(attrs).WithMarks(marks...), diags
     case *nullVal:
         return cty.NullVal(cty.DynamicPseudoType), nil
     default:
